@@ -423,8 +423,6 @@ impl Parser {
                 }
             }
 
-            println!("debug: specific functions: {:?}", specific_functions);
-
             // close off the specific functions
             let _rbracket = self.consume(&RightBracket, |_found| {
                 miette! {
